@@ -8,7 +8,7 @@ LEVEL = 'model_checking'
 
 def plan(tier):
     units, info = wrgraph.wr_plan(tier)
-    units = units + wrgraph.scale_units(tier)[0]
+    units = units + wrgraph.scale_units(tier)[0] + [('unencodable',)]
     return {
         'units': units,
         'rule': '(a) from every canonical state of the closed writer+reader '
@@ -66,7 +66,56 @@ def oracle(ex):
     return v
 
 
+UNENCODABLE = [0xD800, 0xDBFF, 0xDC00, 0xDC7F, 0xDC80, 0xDCE9, 0xDCFF,
+               0xDFFF, 0x20AC, 0x1F600, 0x0100]
+
+
+def check_unencodable(cp, enc, root):
+    """Text the section's codec cannot represent: either the call is
+    rejected (C09 judges that) or what was written is valid text in the
+    declared encoding and equals what was passed -- never other bytes."""
+    import io
+    from pydiffx import DiffXWriter, DiffXReader
+    text = 'caf' + chr(cp) + '\nmore\n'
+    st = io.BytesIO()
+    try:
+        w = DiffXWriter(st, encoding=root)
+        w.write_preamble(text, encoding=enc, indent=2)
+    except Exception:
+        return []
+    try:
+        text.encode(enc or root)
+        return []               # representable after all
+    except UnicodeError:
+        pass
+    data = st.getvalue()
+    return [('unencodable-text-written:%s' % (enc or root),
+             'write_preamble(%r, encoding=%r) under main encoding %r was '
+             'accepted and wrote %r' % (text, enc, root, data[-40:]))]
+
+
 def run_unit(unit, tier):
+    if unit[0] == 'unencodable':
+        from mc.explore import Acc
+        acc = Acc()
+        for cp in UNENCODABLE:
+            for root in ('utf-8', 'latin-1', 'ascii', 'utf-16', 'cp1252'):
+                for enc in (None, 'utf-8', 'latin-1', 'ascii', 'cp1252',
+                            'utf-32'):
+                    viols = check_unencodable(cp, enc, root)
+                    acc.evals += 1
+                    acc.states += 1
+                    acc.transitions += 1
+                    acc.validated += 1
+                    acc.nontrivial += 1
+                    for key, msg in viols:
+                        acc.violation(key, msg, {'kind': 'unencodable',
+                                                 'cp': cp, 'enc': enc,
+                                                 'root': root})
+                    acc.outcome('ok' if not viols else 'violation')
+        acc.sample({'unencodable_code_points': ['U+%04X' % c
+                                                for c in UNENCODABLE]}, 1)
+        return acc
     if unit[0] == 'scale':
         from mc.explore import Acc
         return wrgraph.wr_run_scale_unit(unit, tier, oracle, Acc)
@@ -74,6 +123,9 @@ def run_unit(unit, tier):
 
 
 def replay(payload):
+    if payload.get('kind') == 'unencodable':
+        return [{'key': k, 'msg': m} for k, m in check_unencodable(
+            payload['cp'], payload['enc'], payload['root'])]
     if payload.get('kind') == 'scale':
         cfgs, variants = wrgraph.scale_units('quick')[1:]
         root, enc, le = variants[payload['variant']]
